@@ -20,8 +20,16 @@ func corrVers(ctx *Ctx, stream string, cases [][2]string) {
 	res := ctx.Res
 	reqs := make([]string, 0, len(cases))
 	keep := make([]int, 0, len(cases))
+	skipped := 0
 	for i, c := range cases {
 		if !isASCII(c[0]) || !isASCII(c[1]) {
+			continue
+		}
+		if !versCaseConsistent(c[0], c[1]) {
+			// the model sorts with insertion sort, Go with pdqsort: they agree for every total
+			// preorder, and may differ when Compare is not transitive on the versions involved
+			// (maven, recorded finding F-maven-order-cycle; C01 reports any other ecosystem)
+			skipped++
 			continue
 		}
 		reqs = append(reqs, "XC O "+hx(c[0])+" "+hx(c[1]))
@@ -33,6 +41,9 @@ func corrVers(ctx *Ctx, stream string, cases [][2]string) {
 		return
 	}
 	st := res.stream(stream)
+	if skipped > 0 {
+		res.Notes = append(res.Notes, fmt.Sprintf("%s: %d cases skipped (versions not in one linear preorder)", stream, skipped))
+	}
 	for k, a := range ans {
 		c := cases[keep[k]]
 		impl := vresString(versContains(c[0], c[1]))
@@ -275,10 +286,23 @@ func checkC16(ctx *Ctx) {
 					cs[i].op = r.Pick([]string{">=", "<=", ">", "<", "=", "!="})
 				}
 			}
+			// the property's precondition (VERS uniqueness rule): pairwise non-equivalent versions
+			e16 := ecoByName(schemeEco[scheme])
+			uniq := true
+			for a := 0; a < len(cs) && uniq; a++ {
+				for b := a + 1; b < len(cs); b++ {
+					if cmpS(e16, cs[a].v, cs[b].v) == 0 || cmpS(e16, cs[b].v, cs[a].v) == 0 {
+						uniq = false
+						break
+					}
+				}
+			}
+			if !uniq {
+				continue
+			}
 			parts := fmtCons(cs)
 			base := "vers:" + scheme + "/" + strings.Join(parts, "|")
 			var probes []string
-			_ = vals
 			for _, c := range cs {
 				probes = append(probes, c.s)
 			}
@@ -325,7 +349,6 @@ func checkC16(ctx *Ctx) {
 					}
 					if got := vresString(ok, isErr, pan); got != bs {
 						vi := Violation{Eco: scheme, Kind: "variant-changes-result", Input: map[string]any{"base": base, "variant": v, "probe": pr}, Expected: bs, Actual: got}
-						e16 := ecoByName(schemeEco[scheme])
 						var all []any
 						for _, c := range cs {
 							all = append(all, c.v)
@@ -504,4 +527,37 @@ func checkC17(ctx *Ctx) {
 	res.DistinctNontrivial = len(distinct)
 	res.Distribution["malformation_classes"] = classes
 	res.Distribution["routing_cases_with_foreign_text"] = routing
+}
+
+// versCaseConsistent: the constraint versions of a VERS range text and the probe, as far as they
+// parse in the scheme's ecosystem, lie in one linear preorder.
+func versCaseConsistent(rng, probe string) bool {
+	if !strings.HasPrefix(rng, "vers:") {
+		return true
+	}
+	rest := rng[5:]
+	i := strings.IndexByte(rest, '/')
+	if i < 0 {
+		return true
+	}
+	eco, ok := schemeEco[rest[:i]]
+	if !ok {
+		return true
+	}
+	e := ecoByName(eco)
+	var vals []any
+	for _, c := range strings.Split(rest[i+1:], "|") {
+		c = strings.Join(strings.Fields(c), "")
+		c = strings.TrimLeft(c, "<>=!")
+		if p := e.Parse(c); p.OK {
+			vals = append(vals, p.Val)
+		}
+	}
+	if p := e.Parse(probe); p.OK {
+		vals = append(vals, p.Val)
+	}
+	if len(vals) > 12 {
+		vals = vals[:12]
+	}
+	return consistentSet(e, vals)
 }
